@@ -197,6 +197,12 @@ impl Container {
         let pack_reader = self
             .locator
             .locate(pack_info.uuid, &pack_info.pack_location)?;
+        let pack_reader = match pack_reader {
+            None => None,
+            // What we have located may be the pack itself or a container embedding it.
+            // Either way, the pack is identified by its uuid, not by its location.
+            Some(r) => open_as_container_pack(r)?.get_pack_reader(&pack_info.uuid),
+        };
         match pack_reader {
             None => Ok(Some(MayMissPack::MISSING(pack_info.clone()))),
             Some(r) => Ok(Some(MayMissPack::FOUND(ContentPack::new(r)).transpose()?)),
